@@ -1,7 +1,7 @@
 From Coq Require Import Extraction ExtrOcamlBasic.
 From PV Require Import Lib.ExtractBase Lib.Table Model.Sample Gen.GrpcStatusGen Model.GrpcStatus Model.Shoot Model.ShootEvents
   Lib.AmmoBytes Lib.AmmoDecimal Lib.AmmoLines Model.AmmoCommon Model.AmmoUri Model.AmmoUripost Model.AmmoRaw Model.AmmoJson Model.ShootAmmo
-  Model.ReportQueue Model.ShootRun Gen.PoolDepsGen Model.ShootEngine Gen.AwaitRunGen Model.ShootJsonLine.
+  Model.ReportQueue Model.ShootRun Gen.PoolDepsGen Model.ShootEngine Gen.AwaitRunGen Model.ShootJsonLine Gen.JsonLineTargetGen.
 Extraction Language OCaml.
 Extraction "extracted/C10_model.ml" xb_types grpc_code doc_code autotag_go autotag_spec shoot_tags get_errno ids_from empty_tag
   base_shoot base_spec hscen_shoot hscen_spec gscen_shoot gscen_spec grpc_shoot gcall_code
@@ -11,4 +11,4 @@ Extraction "extracted/C10_model.ml" xb_types grpc_code doc_code autotag_go autot
   hscen_shoot_decl hscen_ev_decl gscen_shoot_decl gscen_ev_decl hscen_decl_spec gscen_decl_spec hscen_file_shoot hscen_file_ev hscen_file_spec gscen_file_shoot gscen_file_ev gscen_file_spec
   shot_reports shot_spec shot_requests run_lines run_lost lazy_history report_variant gen_phout_report_plain_send gen_phout_run_drains
   slow_run_lines slow_run_over engine_ooa gen_ooa_calls
-  lines_entities line_tag.
+  lines_entities line_tag scan_entities gen_jsonline_target.
